@@ -7,6 +7,7 @@ CONSTANTS
   ExistingSets <- Old3
   GrpcExtras <- Ex2
   GrpcMaxSteps = 3
+  Grpc3Progs <- AllProgs
   Ops <- RouteOps
   MaxOps = 6
 ACTION_CONSTRAINT Emit
